@@ -1466,3 +1466,136 @@ Proof.
   - intro k. rewrite (dget_partition k (plains out) NDp). unfold plains.
     rewrite (dget_filter_name extra_name), O3. reflexivity.
 Qed.
+
+(* ================================================================================================ *)
+(* history: the caller's dictionaries are not written; every call is the pure function of them      *)
+(* ================================================================================================ *)
+Lemma length_hset h : forall i x, length (hset h i x) = length h.
+Proof. induction h as [|y t IH]; intros [|j] x; cbn [hset length]; auto. Qed.
+
+Lemma nth_hset_same h : forall i x, (i < length h)%nat -> nth i (hset h i x) [] = x.
+Proof.
+  induction h as [|y t IH]; intros [|j] x H; cbn [length] in H; try lia; cbn [hset nth]; [reflexivity|].
+  apply IH. lia.
+Qed.
+
+Lemma nth_hset_other h : forall i j x, i <> j -> nth i (hset h j x) [] = nth i h [].
+Proof.
+  induction h as [|y t IH]; intros i j x H; [destruct j; reflexivity|].
+  destruct j as [|j], i as [|i]; cbn [hset nth]; try reflexivity; [congruence|]. apply IH. congruence.
+Qed.
+
+Lemma firstn_hset h : forall n j x, (n <= j)%nat -> firstn n (hset h j x) = firstn n h.
+Proof.
+  induction h as [|y t IH]; intros n j x H; [destruct j; reflexivity|].
+  destruct n as [|n]; [reflexivity|]. destruct j as [|j]; [lia|]. cbn [hset firstn]. f_equal. apply IH. lia.
+Qed.
+
+Lemma firstn_app_le {A} (h t : list A) n : (n <= length h)%nat -> firstn n (h ++ t) = firstn n h.
+Proof.
+  intro H. rewrite firstn_app. replace (n - length h)%nat with O by lia. cbn [firstn]. apply app_nil_r.
+Qed.
+
+Lemma nth_firstn_lt {A} (h : list A) d : forall n r, (r < n)%nat -> nth r (firstn n h) d = nth r h d.
+Proof.
+  induction h as [|y t IH]; intros n r H; [destruct n, r; reflexivity|].
+  destruct n as [|n]; [lia|]. destruct r as [|r]; [reflexivity|]. cbn [firstn nth]. apply IH. lia.
+Qed.
+
+Lemma deref_app h t r : ref_ok (length h) r = true -> deref (h ++ t) r = deref h r.
+Proof. destruct r as [i|]; [|reflexivity]. cbn [ref_ok deref]. intro H. apply Nat.ltb_lt in H. now apply app_nth1. Qed.
+
+Lemma deref_hset h j x r : ref_ok j r = true -> deref (hset h j x) r = deref h r.
+Proof.
+  destruct r as [i|]; [|reflexivity]. cbn [ref_ok deref]. intro H. apply Nat.ltb_lt in H.
+  apply nth_hset_other. lia.
+Qed.
+
+(* ONE CALL on objects: the result is the pure function of the contents of the two dictionaries and the keywords,
+   and every object that existed before the call - in particular `attrs` and `defaults` - has the contents it had
+   (the call writes only to the two dictionaries it creates) *)
+Lemma render_heap_frame h a d kw : ref_ok (length h) a = true -> ref_ok (length h) d = true ->
+  fst (render_heap h a d kw) = html_attrs (deref h a) (deref h d) kw /\
+  firstn (length h) (snd (render_heap h a d kw)) = h /\
+  (length h <= length (snd (render_heap h a d kw)))%nat.
+Proof.
+  intros Ha Hd. unfold render_heap, halloc.
+  set (n := length h). set (h1 := h ++ [[]]).
+  assert (L1 : length h1 = S n) by (unfold h1; rewrite app_length; cbn; lia).
+  assert (F1 : nth n h1 [] = []) by (unfold h1, n; apply nth_middle).
+  rewrite F1. cbn [dupdate fold_left].
+  assert (D1 : deref h1 d = deref h d) by (apply deref_app; exact Hd).
+  rewrite D1. fold (dupdate [] (deref h d)).
+  set (h2 := hset h1 n (dupdate [] (deref h d))).
+  assert (L2 : length h2 = S n) by (unfold h2; now rewrite length_hset).
+  assert (F2 : nth n h2 [] = dupdate [] (deref h d)) by (unfold h2; apply nth_hset_same; lia).
+  assert (D2 : deref h2 a = deref h a).
+  { unfold h2. rewrite deref_hset; [apply deref_app; exact Ha|exact Ha]. }
+  rewrite F2, D2.
+  set (base := dupdate (dupdate [] (deref h d)) (deref h a)).
+  set (h3 := hset h2 n base).
+  assert (L3 : length h3 = S n) by (unfold h3; now rewrite length_hset).
+  assert (F3 : nth n h3 [] = base) by (unfold h3; apply nth_hset_same; lia).
+  assert (F4 : nth n (h3 ++ [[]]) [] = base) by (rewrite app_nth1; [exact F3|lia]).
+  assert (R4 : nth (length h3) (h3 ++ [[]]) [] = []) by apply nth_middle.
+  rewrite F4, R4.
+  assert (P : firstn n (h3 ++ [[]]) = h).
+  { rewrite firstn_app_le by lia. unfold h3. rewrite firstn_hset by lia. unfold h2. rewrite firstn_hset by lia.
+    unfold h1, n. rewrite firstn_app_le by lia. apply firstn_all. }
+  unfold html_attrs, html_attrs_dict. fold base.
+  destruct (append_attributes (base ++ kw) []) as [res|]; cbn [fst snd].
+  - rewrite nth_hset_same by (rewrite app_length; cbn; lia).
+    split; [reflexivity|]. split.
+    + rewrite firstn_hset by lia. exact P.
+    + rewrite length_hset, app_length. lia.
+  - split; [reflexivity|]. split; [exact P|]. rewrite app_length. lia.
+Qed.
+
+(* ANY HISTORY of calls that share dictionary objects (the same `defaults` and `attrs` objects reaching the tag again
+   and again, in a loop or across renders, with any other arguments in between): every call renders what the pure
+   function gives on the ORIGINAL contents, and afterwards the objects still have their original contents *)
+Lemma history_lemma cs : forall h0 h,
+  firstn (length h0) h = h0 -> (length h0 <= length h)%nat ->
+  forallb (fun c : option nat * option nat * list ((str * bool) * aval) =>
+             ref_ok (length h0) (fst (fst c)) && ref_ok (length h0) (snd (fst c))) cs = true ->
+  fst (run_heap h cs) = map (fun c => html_attrs (deref h0 (fst (fst c))) (deref h0 (snd (fst c))) (snd c)) cs /\
+  firstn (length h0) (snd (run_heap h cs)) = h0.
+Proof.
+  induction cs as [|[[a d] kw] r IH]; intros h0 h P L H; [split; [reflexivity|exact P]|].
+  cbn [forallb fst snd] in H. apply andb_true_iff in H as [H1 H2]. apply andb_true_iff in H1 as [Ha Hd].
+  assert (W : forall x, ref_ok (length h0) x = true -> ref_ok (length h) x = true /\ deref h x = deref h0 x).
+  { intros [i|] X; [|split; reflexivity]. cbn [ref_ok deref] in *. apply Nat.ltb_lt in X. split; [apply Nat.ltb_lt; lia|].
+    transitivity (nth i (firstn (length h0) h) []); [symmetry; now apply nth_firstn_lt|now rewrite P]. }
+  destruct (W a Ha) as [Ha' Ea], (W d Hd) as [Hd' Ed].
+  destruct (render_heap_frame h a d kw Ha' Hd') as (R1 & R2 & R3).
+  cbn [run_heap map fst snd]. destruct (render_heap h a d kw) as [o h'] eqn:E. cbn [fst snd] in R1, R2, R3.
+  assert (P' : firstn (length h0) h' = h0).
+  { transitivity (firstn (length h0) (firstn (length h) h')); [rewrite firstn_firstn; f_equal; lia|rewrite R2; exact P]. }
+  destruct (IH h0 h' P' ltac:(lia) H2) as [I1 I2].
+  destruct (run_heap h' r) as [os h'']. cbn [fst snd] in *. split; [|exact I2].
+  rewrite R1, Ea, Ed, I1. reflexivity.
+Qed.
+
+Lemma history_independent_lemma h0 cs :
+  forallb (fun c : option nat * option nat * list ((str * bool) * aval) =>
+             ref_ok (length h0) (fst (fst c)) && ref_ok (length h0) (snd (fst c))) cs = true ->
+  fst (run_heap h0 cs) = map (fun c => html_attrs (deref h0 (fst (fst c))) (deref h0 (snd (fst c))) (snd c)) cs /\
+  firstn (length h0) (snd (run_heap h0 cs)) = h0.
+Proof. intro H. apply history_lemma; [apply firstn_all|lia|exact H]. Qed.
+
+(* the aliasing variant (`final_attrs = defaults or {}` then update in place - seeded change C13d) is NOT
+   history independent: the second call of a loop carries the first call's attrs *)
+Definition render_heap_aliased (h : list (list ((str * bool) * aval))) (a d : option nat) (kw : list ((str * bool) * aval))
+  : outcome * list (list ((str * bool) * aval)) :=
+  match d with
+  | Some f => let h3 := hset h f (dupdate (nth f h []) (deref h a)) in
+              (html_attrs [] (nth f h3 []) kw, h3)
+  | None => (html_attrs (deref h a) [] kw, h)
+  end.
+Lemma aliased_render_leaks : exists h a1 a2 d,
+  fst (render_heap_aliased h a1 d []) = html_attrs (deref h a1) (deref h d) [] /\
+  fst (render_heap_aliased (snd (render_heap_aliased h a1 d [])) a2 d []) <> html_attrs (deref h a2) (deref h d) [].
+Proof.
+  exists [[(([99], false), VStr [100])]; [(([120], false), VTrue)]; []], (Some 1%nat), (Some 2%nat), (Some 0%nat).
+  split; [reflexivity|]. vm_compute. discriminate.
+Qed.
